@@ -28,6 +28,8 @@
                      connection has not issued or has already retired
     vStream QUIC     create_stream() handed a stream ID that already has a reader, or called after termination
     vRand   urandom  a new connection's host CID that is already routed
+    vRetryDcid peer  a token-bearing Initial whose DCID is not the source CID of the Retry it answers (only used
+                     by `retry_scid_issued`, which NAMES that DCID; `routing_inv` does not need it)
   Monitors are monotone, so silence in the FINAL state is silence throughout.  TRUSTED: asyncio runs each
   modelled callback to completion (audited at run time by checks/c19.py: the modelled methods are plain
   `def`s without yield points and never re-enter the loop).
@@ -211,6 +213,18 @@ theorem routing_inv (ops : List Op)
   have h := run_tw {} rfl ops ⟨hrand, hmon'⟩ tw_init
   exact ⟨h.inv.reach, h.inv.entries, h.ok⟩
 
+/-- The source connection ID of the server's own Retry packet is a connection ID the server issued.  A
+    connection created from a validated token starts with issued set [host CID, DCID of the token-bearing
+    Initial] (`serverIssued`), so `routing_inv` covers that DCID like any other issued ID: while the connection
+    lives and the ID is not retired, every datagram addressed to it is routed to that very connection (a
+    retransmitted / duplicated / second Initial cannot create a second connection state).  This theorem names
+    the ID: as long as the peer monitor `vRetryDcid` is silent (token-bearing Initials are addressed to the
+    source CID of the Retry they answer, RFC 9000 §8.1.2), that DCID IS the sealed retry source connection ID,
+    for every connection ever created on every schedule. -/
+theorem retry_scid_issued (ops : List Op) (hpeer : (run {} ops).vRetryDcid = false) :
+    ∀ cr ∈ (run {} ops).createdG, ∀ r, cr.rscid = some r → cr.dcid = r :=
+  run_dj {} (by intro _ cr hcr; simp at hcr) ops hpeer
+
 /-- Today's `transmit()` leaves the events raised while sending in the queue: after the single step
     "Initial datagram creates a connection whose first flight advertises a new connection ID", that ID
     is issued, not retired, the connection is live — and the table has no entry for it. -/
@@ -350,6 +364,20 @@ example : ((run {} [.newConn, .ping 0 5 none [], .ping 0 6 none [], .waitClosed 
     some ([0], [(0, Res.ok), (1, Res.cerr), (2, Res.ok)], []) := by decide
 example : LiveDistinct {} [.newConn, .ping 0 5 none [], .cancelCaller 0 0, .dgram 0 none [.terminated] []] := by decide
 
+-- retry world: Initial -> Retry (token s0, source CID [2]); token-bearing Initial addressed to [2] creates connection 0
+-- with issued set [host CID [3], Retry SCID [2]]; a LATER Initial addressed to the Retry SCID (PTO retransmission,
+-- duplicate, second half of a large ClientHello) is routed to the same connection: no second connection state
+def retryDemo : List Op :=
+  [ .sdgram 1 (.h [1] true true .empty) [2] none [] [],
+    .sdgram 1 (.h [2] true true (.sealed 0 1 [1] [2])) [3] (some 4) [] [],
+    .sdgram 1 (.h [2] true true (.sealed 0 1 [1] [2])) [9] (some 4) [] [] ]
+example : ((run { retry := true } retryDemo).conns.length, (run { retry := true } retryDemo).tbl,
+    (run { retry := true } retryDemo).vRetryDcid) = (1, [([2], 0), ([3], 0)], false) := by decide
+example : (run { retry := true } retryDemo).conns.map (fun k => (k.p.issuedG, k.p.vEv, k.p.vCid)) =
+    [([[3], [2]], false, false)] := by decide
+example : (step (run { retry := true } (retryDemo.take 2))
+    (.sdgram 1 (.h [2] true true (.sealed 0 1 [1] [2])) [9] (some 4) [] [])).2.action = .route 0 := by decide
+
 -- every connection of the demo world processed a well-shaped event stream
 example : demoWorld.conns.all (fun k => okLog k.p.evLog) = true := by decide
 example : EventStreamOK [Ev.handshake, .data 0 [1] false, .data 4 [7] true, .data 0 [2] true, .terminated] :=
@@ -382,6 +410,7 @@ end AQ.Props.C19
 #print axioms AQ.Props.C19.timer_sync
 #print axioms AQ.Props.C19.exceptions_detected
 #print axioms AQ.Props.C19.routing_inv
+#print axioms AQ.Props.C19.retry_scid_issued
 #print axioms AQ.Props.C19.routing_counterexample
 #print axioms AQ.Props.C19.event_order_exact
 #print axioms AQ.Props.C19.c01_nothing_after_end
